@@ -1,0 +1,67 @@
+//go:build verif
+
+package eval
+
+import (
+	"strconv"
+
+	"grol.io/grol/ast"
+	"grol.io/grol/object"
+	"grol.io/grol/token"
+)
+
+// VerifRegResult is what the real extendFunctionEnv did with one candidate parameter.
+type VerifRegResult struct {
+	Kept bool // the parameter lives in a register (it was eligible, integer valued, and the body could be rewritten)
+	Idx  int  // index of that register (-1: none)
+}
+
+// VerifSetupRegisters drives the REAL (*State).extendFunctionEnv: a function whose parameters are `used`
+// integer parameters that do not occur in the body (each takes one register: these are the "registers already
+// in use") followed by the candidate names, called with integer arguments where isInt and strings elsewhere.
+// The per-candidate outcome is read back from the environments extendFunctionEnv returns for the first k
+// candidates, k = 1..len(names) (its decisions are sequential, so the register count after k candidates minus
+// the one after k-1 says whether candidate k got a register); the body is the one returned for all of them.
+// err is non-nil when extendFunctionEnv refuses the call (binding an extension or a constant name).
+func VerifSetupRegisters(noReg bool, used int, names []string, isInt []bool, body *ast.Statements) (ast.Node, []VerifRegResult, *object.Error) {
+	run := func(k int) (*object.Environment, ast.Node, *object.Error) {
+		s := NewState()
+		s.NoReg = noReg
+		var params []ast.Node
+		var args []object.Object
+		for i := 0; i < used; i++ {
+			// not an identifier any body can hold, not a constant name
+			params = append(params, &ast.Identifier{Base: ast.Base{Token: token.Intern(token.IDENT, "\x00used"+strconv.Itoa(i))}})
+			args = append(args, object.Integer{Value: 0})
+		}
+		for i := 0; i < k; i++ {
+			params = append(params, &ast.Identifier{Base: ast.Base{Token: token.Intern(token.IDENT, names[i])}})
+			if isInt[i] {
+				args = append(args, object.Integer{Value: 1})
+			} else {
+				args = append(args, object.String{Value: "s"})
+			}
+		}
+		fn := object.Function{Parameters: params, Body: body, Env: s.env, CacheKey: "verif", Lambda: true}
+		return s.extendFunctionEnv(s.env, "verif", fn, args)
+	}
+	res := make([]VerifRegResult, len(names))
+	env, newBody, oerr := run(0)
+	if oerr != nil {
+		return nil, nil, oerr
+	}
+	prev := env.VerifNumReg()
+	for k := 1; k <= len(names); k++ {
+		env, newBody, oerr = run(k)
+		if oerr != nil {
+			return nil, nil, oerr
+		}
+		n := env.VerifNumReg()
+		res[k-1] = VerifRegResult{Kept: n > prev, Idx: -1}
+		if n > prev {
+			res[k-1].Idx = prev
+		}
+		prev = n
+	}
+	return newBody, res, nil
+}
